@@ -775,11 +775,9 @@ def execute(sv, workload, bound, policy_spec=None, sched_seed=0, pairs_seed=0):
         # anything, so first-use effects (lazy initialisation aborted by a fault, raced by a peer) stay reachable
         from sim import runner
         try:
-            F = runner.isolated(_reference_child, sv, workload['keys'], bound, hang_s=120)
-        except RuntimeError as e:
-            if 'signal=14' in str(e):
-                return {'discarded': 'slow-operation-in-reference-pass'}
-            raise
+            F = runner.isolated(_reference_child, sv, workload['keys'], bound, hang_s=30)
+        except runner.IsolatedTimeout:
+            return {'discarded': 'reference-pass-killed-at-deadline(stuck-in-C-code)'}
         if isinstance(F, dict):
             return F
         m.F = F
@@ -984,7 +982,7 @@ def run_chunk(task, agg):
     cfg = task['config']
     sv = env.load_soupsieve(cache_bound=cfg['bound'])
     for i in task['indices']:
-        agg.merge(runner.isolated(_one_run, sv, task['verif_seed'], cfg, i, len(agg.samples)))
+        runner.merge_isolated(agg, f"{cfg['name']}:{i}", _one_run, sv, task['verif_seed'], cfg, i, len(agg.samples))
 
 
 def _one_run(sv, verif_seed, cfg, i, nsamples):
